@@ -4,6 +4,8 @@ CONSTANTS
   MaxDgrams = 64
   Senders = {"s1", "s2", "s3"}
   SpawnPerEvent = FALSE
+  DropWhenBusy = FALSE
+  DoneOnClose = FALSE
 CONSTRAINT HighWater
 POSTCONDITION Report
 CHECK_DEADLOCK FALSE
